@@ -23,6 +23,7 @@ from .cfg import CFG, eval_order
 from .model import AnalysisError, PKG, resolve_callee, resolve_class, src_of
 
 _MAX_DEPTH = 40
+_INF = 1 << 30
 
 
 class Def:
@@ -65,6 +66,8 @@ class Flow:
         self._collect_defs()
         self._reach()
         self._term_cache = {}
+        self._stack = []  # definitions whose terms are being computed (cycle detection for loop-carried locals)
+        self._min_hit = _INF
         self._override = None  # path environment {name: term} used by tables.paths
 
     # ------------------------------------------------------------------ definitions
@@ -203,9 +206,17 @@ class Flow:
         if key in self._term_cache:
             return self._term_cache[key]
         if depth > _MAX_DEPTH:
+            self._min_hit = -1
             return ("unk", "depth:" + src_of(expr, 40))
+        saved, self._min_hit = self._min_hit, _INF
+        height = len(self._stack)
         t = self._term(expr, node, depth)
-        self._term_cache[key] = t
+        hit = self._min_hit
+        if hit >= height:
+            # every cycle met on the way was entered during this very evaluation: the term does not depend on
+            # where the evaluation started, so it may be reused
+            self._term_cache[key] = t
+        self._min_hit = min(saved, hit)
         return t
 
     def term_env(self, expr, node, env):
@@ -229,6 +240,19 @@ class Flow:
             return ("param", d.name)
         if d.kind == "outer":
             return ("outer", d.name)
+        if d.kind in ("assign", "walrus", "for", "with", "aug"):
+            if any(x is d for x in self._stack):
+                # a loop-carried local defined in terms of itself
+                self._min_hit = min(self._min_hit, [i for i, x in enumerate(self._stack) if x is d][0])
+                return ("unk", "rec:" + d.name)
+            self._stack.append(d)
+            try:
+                return self._def_term(d, depth)
+            finally:
+                self._stack.pop()
+        return self._def_term(d, depth)
+
+    def _def_term(self, d, depth):
         if d.kind == "assign" or d.kind == "walrus":
             t = self.term(d.value, d.node, depth + 1)
             for p in d.path:
@@ -521,6 +545,13 @@ def module_expr_term(model, mod, e, depth=0):
         return None
     if isinstance(e, ast.Name) and e.id in mod.assigns and len(mod.assigns[e.id]) == 1:
         return module_expr_term(model, mod, mod.assigns[e.id][0], depth + 1)
+    if isinstance(e, ast.Name):
+        # a module-level function or class of the package named in a literal table
+        for f in mod.funcs:
+            if f.parent is None and f.cls is None and f.name == e.id and f.live:
+                return ("func", f.qual)
+        if e.id in mod.classes:
+            return ("class", mod.name, e.id)
     return None
 
 
